@@ -4,7 +4,7 @@
    input / capture functions (so any iteration order of the Python sets); `extract` instantiates them
    with the value table and node universe of a concrete source. *)
 From Coq Require Import List Bool Arith Lia.
-From IRV Require Import Base.Exn C18.Model C18.Spec C18.Struct C18.Proofs C18.Proofs2 C18.Proofs3 C18.Proofs4 C18.Proofs5 C18.Proofs6.
+From IRV Require Import Base.Exn C18.Model C18.Spec C18.Struct C18.Proofs C18.Proofs2 C18.Proofs3 C18.Proofs4 C18.Proofs5 C18.Proofs6 C18.Proofs7.
 Import ListNotations.
 
 (* The walk never runs out of the fuel the model gives it (so `Raise OtherError` in find_bounded is
@@ -120,7 +120,7 @@ Theorem C18_semantics_abstract :
     (forall n, ~ In n univ -> weight nins ncaps n = 0) ->
     find_bounded prod isinit nins ncaps isf gnodes univ inputs outputs = Ok (ns, inis) ->
     NoDup gnodes ->
-    (forall v n, prod v = Some n <-> In n gnodes /\ In v (nouts n)) ->
+    (forall v n, In n gnodes -> (prod v = Some n <-> In v (nouts n))) ->
     (forall l1 n l2, gnodes = l1 ++ n :: l2 ->
        forall u p, reads nins ncaps n u -> prod u = Some p -> In p l1) ->
     (forall u, Reach prod nins ncaps inputs outputs u -> (In u inputs \/ prod u = None) ->
@@ -134,13 +134,14 @@ Proof.
     as (H1 & H2 & _).
   rewrite H1.
   apply (sem_extracted T interp nins ncaps nouts dflt prod inputs outputs gnodes (fun n => mem n ns) e0 e1
-           Hnd Hprod Htopo); [|exact He1 | apply R_out; exact Ho].
+           Hnd Hprod (fun n Hn => find_bounded_outside prod isinit nins ncaps inputs outputs isf gnodes univ Hw n ns inis Hf Hn)
+           Htopo); [|exact He1 | apply R_out; exact Ho].
   intros n Hn. rewrite mem_In. apply H2.
 Qed.
 Print Assumptions C18_semantics_abstract.
 
 (* C18_semantics (full statement, extract level).  For every tensor type T, every operator semantics
-   `interp` and every environment e0 of the source: if extract returns a graph, the source is in SSA form
+   `interp` and every environment e0 of the source: if extract returns a graph, the source's own nodes are in SSA form
    and topologically sorted (also with respect to values captured by nested bodies), values defined inside
    nested bodies do not belong to the parent graph while the requested outputs do, then running the extracted node list from ANY environment e1 that binds the extracted graph's
    inputs to the source's values at those boundary values and its initializers to the source's initializer
@@ -160,7 +161,7 @@ Theorem C18_semantics :
     let run := exec T interp (u_nins univ) (u_ncaps h univ parent) (u_nouts univ) dflt in
     NoDup gn ->
     (forall m, In m (s_nodes s) -> lookup_node univ (n_id m) = Some m) ->
-    (forall v n, h_prod h v = Some n <-> In n gn /\ In v (u_nouts univ n)) ->
+    (forall v n, In n gn -> (h_prod h v = Some n <-> In v (u_nouts univ n))) ->
     (forall l1 n l2, gn = l1 ++ n :: l2 ->
        forall u p, reads (u_nins univ) (u_ncaps h univ parent) n u -> h_prod h u = Some p -> In p l1) ->
     (forall m S v, In m (s_nodes s) -> In S (n_subs m) -> In v (defs_rec_g S) -> h_owner h v <> Some parent) ->
@@ -173,6 +174,105 @@ Proof.
   exact (extract_semantics T interp dflt h univ s inputs outputs e parent e0 e1 Hex Hpar).
 Qed.
 Print Assumptions C18_semantics.
+
+(* C18_semantics_nested: the same with the nested bodies evaluated, not abstracted.  A node with control
+   operator `op` (uninterpreted, only required to respect pointwise equality of the body functions) is
+   evaluated by Proofs7.den_n: each body denotes the function "bind the body's inputs, run the body's nodes
+   in order in the environment of the enclosing scopes, return the body's outputs", recursively for every
+   nesting depth; captured values are read through that environment.  Covered: every node kind
+   with GRAPH/GRAPHS attributes whose meaning is a function of its inputs and of its bodies' denotations
+   (If, Loop, Scan, ...).  Additional hypotheses w.r.t. C18_semantics: outputs of the source's nodes belong
+   to the parent graph; whatever a body reads from the parent graph is read by one of its nodes (a nested
+   graph whose *output list* names a parent value directly is not covered — and is not seen by
+   _collect_all_external_values either); both runs start from the same environment outside the parent graph
+   (nested initializers — cloned with the same tensors — and outer scopes). *)
+Theorem C18_semantics_nested :
+  forall (T : Type) (dflt : T) (op : nat -> list (option T) -> list (list T -> list T) -> list T),
+    (forall i ins bs bs', Forall2 (fun f g : list T -> list T => forall a, f a = g a) bs bs' ->
+                          op i ins bs = op i ins bs') ->
+  forall h univ s inputs outputs e parent (e0 e1 : nat -> T),
+    extract h univ s inputs outputs = Ok e ->
+    (exists o, hd_error (e_outputs e) = Some o /\ h_owner h o = Some parent) ->
+    let gn := map n_id (s_nodes s) in
+    let ncaps := u_ncaps h univ parent in
+    let xnodes := filter (fun n => mem (n_id n) (e_nodes e)) (s_nodes s) in
+    NoDup gn ->
+    (forall m, In m (s_nodes s) -> lookup_node univ (n_id m) = Some m) ->
+    (forall v n, In n gn -> (h_prod h v = Some n <-> In v (u_nouts univ n))) ->
+    (forall l1 n l2, gn = l1 ++ n :: l2 ->
+       forall u p, reads (u_nins univ) ncaps n u -> h_prod h u = Some p -> In p l1) ->
+    (forall m S v, In m (s_nodes s) -> In S (n_subs m) -> In v (defs_rec_g S) -> h_owner h v <> Some parent) ->
+    (forall o, In o (e_outputs e) -> h_owner h o = Some parent) ->
+    (forall m v, In m (s_nodes s) -> In v (n_outs m) -> h_owner h v = Some parent) ->
+    (forall m v, In m (s_nodes s) -> In v (flat_map reads_g (n_subs m)) ->
+                 h_owner h v = Some parent -> In v (ncaps (n_id m))) ->
+    (forall v, In v (e_inputs e) -> e1 v = den_run T dflt op (s_nodes s) e0 v) ->
+    (forall v, In v (e_inits e) -> e1 v = e0 v) ->
+    (forall v, h_owner h v <> Some parent -> e1 v = e0 v) ->
+    forall o, In o (e_outputs e) -> den_run T dflt op xnodes e1 o = den_run T dflt op (s_nodes s) e0 o.
+Proof.
+  intros T dflt op op_ext h univ s inputs outputs e parent e0 e1 Hex Hpar gn ncaps xnodes.
+  exact (extract_semantics_nested T dflt op op_ext h univ s inputs outputs e parent e0 e1 Hex Hpar).
+Qed.
+Print Assumptions C18_semantics_nested.
+
+(* Source kinds.  Function: initializers listed in `inputs` are NOT recorded (isinstance(graph, ir.Function)
+   branch) — only the needed non-input ones are. *)
+Theorem C18_function_inits :
+  forall prod isinit nins ncaps inputs outputs gnodes univ ns inis,
+    (forall n, ~ In n univ -> weight nins ncaps n = 0) ->
+    find_bounded prod isinit nins ncaps true gnodes univ inputs outputs = Ok (ns, inis) ->
+    forall v, In v inis <-> Reach prod nins ncaps inputs outputs v /\ ~ In v inputs /\ isinit v = true.
+Proof.
+  intros prod isinit nins ncaps inputs outputs gnodes univ ns inis Hw H v.
+  rewrite (C18_inits prod isinit nins ncaps inputs outputs true gnodes univ ns inis Hw H v).
+  split; [intros [[Hx _]|Hx]; [discriminate | exact Hx] | intros Hx; right; exact Hx].
+Qed.
+Print Assumptions C18_function_inits.
+
+(* GraphView: the view's node list is node_index; a needed node that the view does not contain makes
+   extract raise (ValueError from the frontier check or KeyError from node_index) — never a wrong graph. *)
+Theorem C18_view_needed_node_outside_raises :
+  forall prod isinit nins ncaps inputs outputs isf gnodes univ n,
+    (forall n, ~ In n univ -> weight nins ncaps n = 0) ->
+    NeededNode prod nins ncaps inputs outputs n -> ~ In n gnodes ->
+    find_bounded prod isinit nins ncaps isf gnodes univ inputs outputs = Raise ValueError
+    \/ find_bounded prod isinit nins ncaps isf gnodes univ inputs outputs = Raise KeyError.
+Proof.
+  intros prod isinit nins ncaps inputs outputs isf gnodes univ n Hw Hn Hout.
+  destruct (find_bounded_cases prod isinit nins ncaps inputs outputs isf gnodes univ Hw) as [[ns [inis H]]|H]; [|exact H].
+  exfalso. apply Hout. eapply find_bounded_outside; eauto.
+Qed.
+Print Assumptions C18_view_needed_node_outside_raises.
+
+(* Graph / Function: every by-object boundary value must belong to the source graph (a GraphView skips the
+   check); by-name references must be known to create_value_mapping — for every kind. *)
+Theorem C18_refs_checked :
+  forall h univ s inputs outputs e,
+    extract h univ s inputs outputs = Ok e ->
+    (forall v, In (ByObj v) (inputs ++ outputs) -> is_view (s_kind s) = false ->
+               h_owner h v = Some (s_gid s)) /\
+    (forall nm, In (ByName nm) (inputs ++ outputs) ->
+                exists v, assoc nm (value_mapping (h_name h) s) = Some v).
+Proof.
+  intros h univ s inputs outputs e H.
+  destruct (extract_ok_inv h univ s inputs outputs e H) as (all & _ & _ & _ & HR & _).
+  revert all HR. generalize (inputs ++ outputs) as rs. clear.
+  induction rs as [|r rs IH]; intros all HR; [split; intros ? []|].
+  cbn [resolve] in HR. destruct r as [v|nm].
+  - destruct (negb (is_view (s_kind s)) && negb (onat_eqb (h_owner h v) (Some (s_gid s)))) eqn:E; [discriminate|].
+    destruct (resolve (h_owner h) s (value_mapping (h_name h) s) rs) as [l|x] eqn:ER; [|discriminate].
+    destruct (IH l eq_refl) as [I1 I2]. split.
+    + intros w [Hw|Hw] Hv; [|apply I1; assumption]. inversion Hw; subst w.
+      rewrite Hv in E. simpl in E. apply negb_false_iff in E. apply onat_eqb_eq. exact E.
+    + intros nm [Hn|Hn]; [discriminate | apply I2; exact Hn].
+  - destruct (assoc nm (value_mapping (h_name h) s)) as [v|] eqn:EA; [|discriminate].
+    destruct (resolve (h_owner h) s (value_mapping (h_name h) s) rs) as [l|x] eqn:ER; [|discriminate].
+    destruct (IH l eq_refl) as [I1 I2]. split.
+    + intros w [Hw|Hw] Hv; [discriminate | apply I1; assumption].
+    + intros nm' [Hn|Hn]; [inversion Hn; subst nm'; exists v; exact EA | apply I2; exact Hn].
+Qed.
+Print Assumptions C18_refs_checked.
 
 (* Non-vacuity: a sorted SSA source (x=1; a=f(x); b=g(a,x); c=h(b)), cut at a: nodes 2 and 3 are kept and
    the hypotheses of C18_semantics_abstract hold. *)
@@ -330,3 +430,48 @@ Example C18_extract_example_unbounded_capture :
   extract (map (fun kv => if Nat.eqb (fst kv) 3 then (3, VI (Some 1) None false 3) else kv) ex_h)
           (rec_nodes_g ex_g) ex_src [] [ByObj 4] = Raise RuntimeError.
 Proof. split; vm_compute; reflexivity. Qed.
+
+(* Non-vacuity of C18_semantics: its structural hypotheses hold for the example source ex_g / ex_h
+   (parent graph 1) and the cut [x] -> [y] extracted above. *)
+Example C18_semantics_example_hyps :
+  let univ := rec_nodes_g ex_g in
+  let e := EX [1; 2] [2] [1] [4] in
+  let gn := map n_id (s_nodes ex_src) in
+  extract ex_h univ ex_src [ByObj 1] [ByName 4] = Ok e /\
+  (exists o, hd_error (e_outputs e) = Some o /\ h_owner ex_h o = Some 1) /\
+  NoDup gn /\
+  (forall m, In m (s_nodes ex_src) -> lookup_node univ (n_id m) = Some m) /\
+  (forall v n, In n gn -> (h_prod ex_h v = Some n <-> In v (u_nouts univ n))) /\
+  (forall l1 n l2, gn = l1 ++ n :: l2 ->
+     forall u p, reads (u_nins univ) (u_ncaps ex_h univ 1) n u -> h_prod ex_h u = Some p -> In p l1) /\
+  (forall m S v, In m (s_nodes ex_src) -> In S (n_subs m) -> In v (defs_rec_g S) -> h_owner ex_h v <> Some 1) /\
+  (forall o, In o (e_outputs e) -> h_owner ex_h o = Some 1) /\
+  (* the two extra structural hypotheses of C18_semantics_nested *)
+  (forall m v, In m (s_nodes ex_src) -> In v (n_outs m) -> h_owner ex_h v = Some 1) /\
+  (forall m v, In m (s_nodes ex_src) -> In v (flat_map reads_g (n_subs m)) ->
+               h_owner ex_h v = Some 1 -> In v (u_ncaps ex_h univ 1 (n_id m))).
+Proof.
+  cbv zeta. split; [vm_compute; reflexivity|]. split; [exists 4; split; reflexivity|].
+  split; [repeat constructor; simpl; intuition discriminate|].
+  split; [intros m [H|[H|[H|[]]]]; subst m; reflexivity|].
+  split.
+  { intros v n [H|[H|[H|[]]]]; subst n;
+      (do 7 (destruct v as [|v];
+             [vm_compute; split; [intros H; inversion H; auto | intros H; intuition congruence]|]));
+      (vm_compute; split; [intros H; inversion H | intros H; intuition congruence]). }
+  split.
+  { intros l1 n l2 Hg u p Hr Hp.
+    destruct l1 as [|a [|b [|c l1]]]; simpl in Hg; inversion Hg; subst.
+    - vm_compute in Hr. destruct Hr as [[H|[]]|[]]. inversion H; subst u. vm_compute in Hp. discriminate.
+    - vm_compute in Hr. destruct Hr as [[]|[H|[H|[]]]]; subst u; vm_compute in Hp; inversion Hp; subst. left. reflexivity.
+    - vm_compute in Hr. destruct Hr as [[H|[]]|[]]. inversion H; subst u. vm_compute in Hp. discriminate.
+    - destruct l1; discriminate. }
+  split.
+  { intros m S v [H|[H|[H|[]]]] HS Hv; subst m; simpl in HS; try contradiction.
+    destruct HS as [HS|[]]. subst S. vm_compute in Hv. destruct Hv as [Hv|[]]. subst v. vm_compute. discriminate. }
+  split; [intros o [H|[]]; subst o; reflexivity|].
+  split.
+  { intros m v [H|[H|[H|[]]]] Hv; subst m; vm_compute in Hv; destruct Hv as [Hv|[]]; subst v; reflexivity. }
+  intros m v [H|[H|[H|[]]]] Hv Ho; subst m; vm_compute in Hv; try contradiction.
+  destruct Hv as [Hv|[Hv|[Hv|[]]]]; subst v; vm_compute; auto. vm_compute in Ho. discriminate.
+Qed.
